@@ -808,7 +808,8 @@ impl Sup {
         if state != 'R' {
             return;
         }
-        if thread_cpu_ns(self.pid, tid).saturating_sub(self.seg_cpu0) < 250_000_000 {
+        let now_cpu = thread_cpu_ns(self.pid, tid);
+        if now_cpu == 0 || self.seg_cpu0 == 0 || now_cpu.saturating_sub(self.seg_cpu0) < 250_000_000 {
             return;
         }
         unsafe { libc::syscall(libc::SYS_tgkill, self.pid, tid, libc::SIGSTOP) };
@@ -976,18 +977,22 @@ impl Sup {
             if word & 0xffff == 0x050f {
                 return Some(false);
             }
-            if !aim || self.in_proj(rip) {
-                counted += 1;
-            }
-            total += 1;
             let sig = std::mem::replace(&mut self.ths[i].pending_sig, 0);
             ptrace(libc::PTRACE_SINGLESTEP, tid, 0, sig as u64);
             self.usteps += 1;
             match wait_tid(tid) {
                 Ev::Sig(s) => {
-                    if s != libc::SIGTRAP && s != libc::SIGSTOP {
-                        self.ths[i].pending_sig = s;
+                    if s != libc::SIGTRAP {
+                        // a signal stop, not the trap of an executed instruction: nothing was stepped
+                        if s != libc::SIGSTOP {
+                            self.ths[i].pending_sig = s;
+                        }
+                        continue;
                     }
+                    if !aim || self.in_proj(rip) {
+                        counted += 1;
+                    }
+                    total += 1;
                 }
                 Ev::Syscall | Ev::Event(_) => {}
                 Ev::Timeout => {
@@ -1031,6 +1036,16 @@ impl Sup {
             };
             if k == 0 {
                 break;
+            }
+            if k == 25 {
+                // AT_RANDOM: 16 kernel-chosen bytes (stack protector, pointer guard): take them from the seed as well
+                if let Some(addr) = self.read_u64(p + 8) {
+                    let mut b = [0u8; 16];
+                    for x in b.iter_mut() {
+                        *x = (self.rand_rng.next() & 0xff) as u8;
+                    }
+                    self.write_mem(addr, &b);
+                }
             }
             if k == 33 {
                 // AT_SYSINFO_EHDR -> AT_IGNORE
@@ -1124,28 +1139,34 @@ impl Sup {
             if word & 0xffff == 0x050f {
                 return Some(false);
             }
+            let atomic = Self::is_atomic_insn(word);
             if seen >= n {
                 if left == 0 {
                     return Some(true);
                 }
-                left -= 1;
-            } else if Self::is_atomic_insn(word) {
-                seen += 1;
-                if before && seen >= n && total > 0 {
-                    // park with the n-th atomic instruction still to be executed: whatever the thread has read so far (a count, a
-                    // flag) can go stale before its read-modify-write happens - the switch point loom puts before every atomic
-                    return Some(true);
-                }
+            } else if atomic && before && seen + 1 >= n && total > 0 {
+                // park with the n-th atomic instruction still to be executed: whatever the thread has read so far (a count, a
+                // flag) can go stale before its read-modify-write happens - the switch point loom puts before every atomic
+                return Some(true);
             }
-            total += 1;
             let sig = std::mem::replace(&mut self.ths[i].pending_sig, 0);
             ptrace(libc::PTRACE_SINGLESTEP, tid, 0, sig as u64);
             self.usteps += 1;
             match wait_tid(tid) {
                 Ev::Sig(s) => {
-                    if s != libc::SIGTRAP && s != libc::SIGSTOP {
-                        self.ths[i].pending_sig = s;
+                    if s != libc::SIGTRAP {
+                        // a signal stop, not the trap of an executed instruction: nothing was stepped, nothing is counted
+                        if s != libc::SIGSTOP {
+                            self.ths[i].pending_sig = s;
+                        }
+                        continue;
                     }
+                    if seen >= n {
+                        left -= 1;
+                    } else if atomic {
+                        seen += 1;
+                    }
+                    total += 1;
                 }
                 Ev::Syscall | Ev::Event(_) => {}
                 Ev::Timeout => {
